@@ -70,6 +70,9 @@ func checkC09(c c08Case, o *Obs) error {
 	o.LabelIf(len(c.Queries) >= 2, "queries>=2")
 	o.LabelIf(strings.Trim(c.Ref, "ACGT") != "", "iupac-reference")
 	o.LabelIf(len(c.Ref) > 64, "wide-alignment")
+	for _, l := range strings.Split(tCSV+qCSV, "\n") {
+		o.LabelIf(len(l) > 65536, "csv-row>64KiB")
+	}
 	o.LabelIf(c.Opts.Table, "table")
 	o.LabelIf(c.Opts.DistPush > 0, "dist-push")
 	if len(c.Queries) >= 2 && nonEmpty {
@@ -84,7 +87,9 @@ func genC09(t *rapid.T) c08Case {
 	if rapid.IntRange(0, 9).Draw(t, "singleQuery") < 2 {
 		minQ = 1
 	}
+	hugeRows = true
 	c.Ref, c.Queries, c.Targets = genUDInput(t, minQ, true)
+	hugeRows = false
 	c.Opts = genUDOpts(t, c.Targets, len(c.Ref))
 	return c
 }
